@@ -3329,6 +3329,8 @@ def store_wf(ex, st, s):
     out = []
     out.append(("C03: cwd and root are absolute", b_and(TP.is_ch(s["cwd"][0], TP.SLASH) if s["cwd"] else B(False),
                                                         TP.is_ch(s["root"][0], TP.SLASH) if s["root"] else B(False))))
+    rootent = find_key(ex, st, s["entries"], s["root"]) if s["root"] else None
+    out.append(("C03: the root exists and is a real directory", b_and(rootent["dir"], b_not(rootent["link"])) if rootent is not None else B(False)))
     for e in s["entries"]:
         out.append(("C03: every entry reports the path it is stored under", TP.path_eq_text(ex, st, e["path"], e["key"])))
         toks = TP.tokenize(ex, st, e["key"])
@@ -3408,6 +3410,7 @@ TREE2 = {"/": ("d", ["a", "b"]), "/a": ("d", ["a", "b"]), "/a/a": ("d", ["a"]), 
 # a tree with distinguishable modes and a link to a file (for copy / move)
 TREE3 = {"/": ("d", ["a", "b"]), "/a": ("d", ["a", "b"], 0o40750), "/a/a": ("l", "/b", "f", "../b"), "/a/b": ("f", "x", 0o100600), "/b": ("f", "yz")}
 TREE4 = dict(TREE3, **{"/": ("d", ["a", "b", "ab"]), "/ab": ("l", "/a/b", "f", "a/b")})  # + a link in the root that points into /a
+TREE0 = {"/": ("d", [])}  # a fresh filesystem (Memfs::new())
 MEM_ALPHA = "/ab."
 
 # method -> (argument kinds, may it report failure and must then leave the tree untouched?)
@@ -3715,6 +3718,7 @@ fn well_formed(v: &Memfs) -> Result<(), String> {
         if !fs.contains(f) || !v.is_file(f) || v.is_symlink(f) { return Err(format!("byte content stored for {:?}, which is not a regular file", f)); }
     }
     if !v.cwd().map_err(|e| e.to_string())?.is_absolute() { return Err("cwd is not absolute".into()); }
+    if !v.is_dir("/") { return Err("the root does not exist / is not a directory".into()); }
     Ok(())
 }
 
@@ -3900,7 +3904,7 @@ def mem_replay_src(f):
             args.append("0o644")
     call = "v.%s(%s)" % (op, ", ".join(args))
     tree = f.get("tree") or TREE1
-    fixture_call = "fixture()" if tree is TREE1 else "fixture4()" if tree is TREE4 else "fixture3()"
+    fixture_call = "fixture()" if tree is TREE1 else "fixture4()" if tree is TREE4 else "Memfs::new()" if tree is TREE0 else "fixture3()"
     pre_line, pre_ref = "", ""
     if f.get("pre"):
         pk = MEM_OPS[f["pre"]][0]
@@ -3931,8 +3935,9 @@ def mem_replay_src(f):
         refcheck = '''    assert!(!failed, "C01: %s fails where the reference filesystem succeeds");
     assert_eq!(dump(&v).split("\\n[cwd]").next().unwrap(), %s, "C01: the tree after %s differs from the reference filesystem's");
 ''' % (op, rs_str(a["expect_dump"]), op)
-    elif op in REF_OPS and tree is TREE1 and not any(c in a["arg0"] for c in "~$"):
+    elif op in REF_OPS and tree in (TREE1, TREE0) and not any(c in a["arg0"] for c in "~$"):
         refcheck = '''    let mut r = RefFs::fixture(%s);
+    FRESH_REF
     let pre_known = true;
 PRE_REF    if let (true, Ok(ok)) = (pre_known, r.apply(%s, %s, %s)) {
         assert_eq!(!failed, ok, "C01: %s succeeds/fails differently from the reference filesystem");
@@ -3944,7 +3949,7 @@ PRE_REF    if let (true, Ok(ok)) = (pre_known, r.apply(%s, %s, %s)) {
         }
     }
 ''' % (rs_str(cwd), rs_str(op), rs_str(a["arg0"]), rs_str(a.get("data1", a.get("arg1", ""))), op, op)
-    refcheck = refcheck.replace("PRE_REF", pre_ref)
+    refcheck = refcheck.replace("PRE_REF", pre_ref).replace("FRESH_REF", 'r.nodes.retain(|k, _| k == "/");' if tree is TREE0 else "")
     mk = re.search(r"documented error kind (\w+)", f["desc"])
     if mk:
         camel = "".join(w.capitalize() for w in mk.group(1).split("_"))
@@ -3995,6 +4000,13 @@ _mk_mem_single("c03_mem_remove", ["remove", "remove_all"], 3, 2, "quick")
 _mk_mem_single("c03_mem_symlink", ["symlink"], 3, 2, "quick")
 _mk_mem_single("c03_mem_move", ["move_p"], 3, 2, "quick")
 _mk_mem_single("c03_mem_copy", ["copy"], 3, 2, "quick")
+
+
+@job("c03_mem_fresh", ["C03", "C01", "C12"], "quick", functions=[MEM_FUNCS[0] % "mkfile,mkdir_p,write_all,append_all,remove,remove_all,set_cwd,symlink,move_p,copy"],
+     bounds="one call on a fresh filesystem (only '/', cwd '/'): every path text of 1..=3 chars over {'/','a','b','.'} (two-path calls 1..=2 each)")
+def c03_mem_fresh(ctx, prop):
+    return run_memfs_single(ctx, prop, ["mkfile", "mkdir_p", "write_all", "append_all", "remove", "remove_all", "set_cwd", "symlink", "move_p", "copy"], 3, 2,
+                            cwds=("/",), tag="c03_mem_fresh", tree=TREE0)
 
 
 def _mk_c09(name, ops, n2, tier, cwds=("/", "/a"), tree=None):
@@ -5937,6 +5949,12 @@ def run_macros(ctx, prop, macros, n, tag, cwds=("/", "/a")):
                         second = T_(xv)
                         args.append(BoxRef(M.SStr(list(second))))
                         groups["arg1"] = second
+                    if mac == "mkdir_m":
+                        solver.declare(tagx + "_m", "(_ BitVec 32)")
+                        cons = cons + ["(bvule %s_m #x000001ff)" % tagx]
+                        modev = BV(32, False, "(bvor %s_m #x00004000)" % tagx)  # the macro compares with the full mode (type bits included)
+                        args.append(modev)
+                        groups["mode"] = [BV(32, False, tagx + "_m")]
                     if withdata:
                         d, dc = sym_text(solver, tagx + "d", 1, ascii_only=True)
                         cons = cons + dc + ["(bvuge %s #x00000061)" % d[0].v, "(bvule %s #x0000007a)" % d[0].v]
@@ -5999,7 +6017,19 @@ def run_macros(ctx, prop, macros, n, tag, cwds=("/", "/a")):
                             # acting macros: perform the operation (reference) and check the postcondition
                             same_tree = False
                             r2 = ref_from_snapshot(ex, st, before)
-                            if mac in ("mkdir_p", "remove", "remove_all"):
+                            if mac == "mkdir_m":
+                                from .mirsym.values import bv_bin as _bvb
+                                want = BV(32, False, "(bvor %s #x00004000)" % groups["mode"][0].smt())
+                                nbefore = len(r2["nodes"])
+                                out, _ = ref_apply(ex, st, r2, "mkdir_p", [target], None)
+                                if out == "skip":
+                                    return
+                                for nn in r2["nodes"][nbefore:]:
+                                    nn["mode"] = want  # every directory created on the way gets the requested mode
+                                tn = ref_find(ex, st, r2, target) if out == "ok" else None
+                                expect = out == "ok" and tn is not None and ex.decide(st, _bvb("Eq", tn["mode"], want))
+                                ref_after = r2 if out == "ok" else None
+                            elif mac in ("mkdir_p", "remove", "remove_all"):
                                 if mac == "remove" and node is None:
                                     expect, ref_after = True, r2
                                 else:
@@ -6092,6 +6122,9 @@ def c20_replay_src(f):
         args.append(rs_str(a["arg1"]))
     if "data" in a:
         args.append(rs_str(a["data"]))
+    if "mode" in a:
+        mo = a["mode"]
+        args.append("0o%o" % (0o40000 | (ord(mo) if isinstance(mo, str) and len(mo) == 1 else int(mo or 0))))
     call = "assert_vfs_%s!(v, %s);" % (mac, ", ".join(args))
     if "passes exactly" in f["desc"]:
         check = ('assert!(r.is_ok(), "C20: assert_vfs_%s! fails on a state that satisfies it: {:?}", msg);' % mac) if want_pass else \
@@ -6142,7 +6175,7 @@ def _mk_c20(name, macros, tier, n=2):
 
 _mk_c20("c20_checking", C20_CHECKING, "quick")
 _mk_c20("c20_reading", ["read_all", "readlink", "readlink_abs"], "quick")
-_mk_c20("c20_acting_a", ["mkdir_p", "mkfile", "write_all", "remove", "remove_all"], "quick")
+_mk_c20("c20_acting_a", ["mkdir_p", "mkdir_m", "mkfile", "write_all", "remove", "remove_all"], "quick")
 _mk_c20("c20_acting_b", ["symlink", "copyfile"], "quick")
 _mk_c20("c20_checking3", C20_CHECKING + ["read_all", "mkfile", "remove"], "thorough", 3)
 
